@@ -12,20 +12,36 @@ namespace BsVerif.Life
 
 /-! ## quit / drop -/
 
-/-- **C11_drop_kills_launched.** For every program and every command history on a launched program, dropping the
-debugger leaves every process it ever launched — the current one and those of earlier generations (restarts) —
-dead and collected (`NoChildLeft`), whatever state the history ended in: not started, stopped at a breakpoint or
-in a signal stop with any number of threads, exited, died by a signal. -/
-theorem C11_drop_kills_launched (p : Prog) (ops : List Op) :
-    NoChildLeft (execDrop (execAll (initLaunched p) ops)) := life_drop_kills_launched p ops
+/-- full statement: for every program and every command history on a launched program, dropping the debugger
+leaves every process it ever launched — the current one and those of earlier generations (restarts) — dead and
+collected (`NoChildLeft`) -/
+def C11_drop_kills_launched_full : Prop :=
+  ∀ (p : Prog) (ops : List Op), NoChildLeft (execDrop (execAll (initLaunched p) ops))
+
+/-- **proved part** (named hypothesis: the history does not end in the not-started state): whatever else the state
+is — stopped at a breakpoint or in a signal stop with any number of threads, exited, died by a signal, any number
+of earlier generations — every launched process is dead and collected after the drop -/
+theorem C11_drop_kills_launched_partial (p : Prog) (ops : List Op)
+    (hu : (execAll (initLaunched p) ops).status ≠ .unload) :
+    NoChildLeft (execDrop (execAll (initLaunched p) ops)) := life_drop_kills_launched p ops hu
 
 /-- the same for a debugger that attached to a running process (which is not its child and is released, not
 killed): whatever it launched by later restarts is dead and collected -/
-theorem C11_drop_kills_launched_after_attach (p : Prog) (k n : Nat) (ops : List Op) :
-    NoChildLeft (execDrop (execAll (initAttached p k n) ops)) := life_drop_kills_launched_after_attach p k n ops
+theorem C11_drop_kills_launched_after_attach (p : Prog) (k n : Nat) (ops : List Op)
+    (hu : (execAll (initAttached p k n) ops).status ≠ .unload) :
+    NoChildLeft (execDrop (execAll (initAttached p k n) ops)) := life_drop_kills_launched_after_attach p k n ops hu
+
+/-- false of the unchanged code: dropping a debugger whose program was never started kills the child but does not
+collect it — `waitpid(pid)` in `Drop` returns the stop notification left pending by PTRACE_SEIZE, not the death
+(replayed on the real code: corpus/C11/drop-not-started.req) -/
+theorem C11_drop_kills_launched_counterexample : ¬ C11_drop_kills_launched_full := by
+  intro h
+  have := h witnessAbort [] (execDrop (execAll (initLaunched witnessAbort) [])).proc (by simp) (by decide)
+  revert this
+  decide
 
 example : NoChildLeft (execDrop (execAll (initLaunched witnessAbort) [.brk 200, .start, .restart, .cont])) :=
-  C11_drop_kills_launched _ _
+  C11_drop_kills_launched_partial _ _ (by decide)
 -- non-vacuity: the history above really creates two processes and the drop really has one to kill
 example : (execAll (initLaunched witnessAbort) [.brk 200, .start, .restart]).old.length = 1
     ∧ (execAll (initLaunched witnessAbort) [.brk 200, .start, .restart]).proc.alive = true
